@@ -77,13 +77,14 @@ fn down_str(m: &VDown) -> String {
         VDown::Compute(ts) => format!(
             "compute {}",
             join(
-                ts.iter().map(|(t, inst, rv, rq, nodes)| format!(
-                    "{}:{}:{}:{}:{}",
+                ts.iter().map(|(t, inst, rv, rq, nodes, tlim)| format!(
+                    "{}:{}:{}:{}:{}:t{}",
                     tid(*t),
                     inst,
                     rv.map(|v| v.to_string()).unwrap_or("p".into()),
                     rq,
-                    join(nodes.iter(), "+")
+                    join(nodes.iter(), "+"),
+                    *tlim as u32
                 )),
                 ","
             )
@@ -1074,7 +1075,7 @@ async fn gen_trace(id: u64, rng: &mut Rng, tier: &str) -> String {
                     } else {
                         (random_rq(rng, cfg.mn), *rng.pick(&[0, 0, 0, 1, 2, -1, 5]))
                     };
-                    cands.push((if focus { submit_w.max(4) } else { submit_w }, Op::Submit { job, ids, entries, rq, prio, crash: random_crash(rng), tlim: rng.chance(1, 8), maxfails }));
+                    cands.push((if focus { submit_w.max(4) } else { submit_w }, Op::Submit { job, ids, entries, rq, prio, crash: random_crash(rng), tlim: rng.chance(1, 3), maxfails }));
                 } else {
                     // small DAG; ids ascending, deps mostly on earlier ids
                     let n = rng.range(2, 7) as u32;
@@ -1093,6 +1094,11 @@ async fn gen_trace(id: u64, rng: &mut Rng, tier: &str) -> String {
                         }
                         if rng.chance(1, 25) {
                             deps.push(rng.below(40) as u32); // maybe unknown / maybe a task of an earlier submit
+                        }
+                        if job.is_some() && rng.chance(1, 8) {
+                            // a graph submitted into an existing job: quite likely a task of an EARLIER submit of that
+                            // job, in whatever state it is now (finished, failed, cancelled, aborted, still waiting)
+                            deps.push(rng.below(4) as u32 * 10 + rng.below(3) as u32);
                         }
                         if i + 1 < n && rng.chance(1, 14) {
                             deps.push(base + i + 1); // a dependency on a task listed LATER in the same submit (must be rejected)
